@@ -210,7 +210,21 @@ Definition obs_hmodel (h : hcfg) (f : list stree) (oa : mobj * list (list string
                   match nested_to_kind h o p, act with
                   | KHelper, [_] => L [e_bool true; e_str (join_path (h_sep h) p)]
                   | _, _ => L []
-                  end]) (forest_paths f))].
+                  end;
+                  (* model.to(<path name>) (HierarchicalMachine.to_state, bound unless the model has its
+                     own `to`) from a configuration with one active state: ends in p, and runs the
+                     same exit / enter callbacks as the to_<p> helper *)
+                  match getattr o "to"%string, act with
+                  | None, [_] => L [N 1]
+                  | _, _ => L []
+                  end]) (forest_paths f));
+     (* the attribute `to`: the machine's unless the model defined one (hasattr) *)
+     e_hkind (match getattr o "to"%string with None => KHelper | own => own_kind own end);
+     (* ... called from a configuration with several active states: MachineError *)
+     match getattr o "to"%string, act with
+     | None, _ :: _ :: _ => L [e_exn MachineError]
+     | _, _ => L []
+     end].
 Definition hstep (h : hcfg) (f : list stree) (ms : hmodels) (x : hop) : hmodels * sx :=
   match x with
   | HAddModel o init =>
